@@ -1,4 +1,5 @@
 import NflowsModel.Audit.Tool
 import NflowsModel.Properties.C01
+import NflowsModel.Properties.C01J
 
 #audit_namespace Properties.C01
